@@ -10,6 +10,8 @@ mod read_paths;
 mod crash_engine;
 mod sched_engine;
 mod openlock_engine;
+mod dsched;
+mod c10_engine;
 
 fn main() {
     let args = common::Args(std::env::args().skip(1).collect());
@@ -23,6 +25,7 @@ fn main() {
         Some("crash") => crash_engine::main(&args),
         Some("sched") => sched_engine::main(&args),
         Some("openlock") => openlock_engine::main(&args),
+        Some("c10") => c10_engine::main(&args),
         _ => {
             eprintln!("usage: harness <engine> …");
             2
